@@ -13,6 +13,7 @@ SCN = {
     "session":    ("pub",  "MaxD = 4 MaxGen = 3 MaxN = 2 Windows = {1, 2} MaxId = 3", "MaxD = 5 MaxGen = 3 MaxN = 2 Windows = {1, 2} MaxId = 3"),
     "subscriber": ("sub",  "MaxD = 3 MaxGen = 2 MaxN = 2 Windows = {1, 2} MaxId = 3", "MaxD = 4 MaxGen = 2 MaxN = 2 Windows = {1, 2} MaxId = 3"),
     "keepalive":  ("both", "MaxD = 2 MaxGen = 2 MaxN = 1 Windows = {1} MaxId = 3", "MaxD = 3 MaxGen = 3 MaxN = 1 Windows = {1} MaxId = 3"),
+    "twoaddr":    ("pub",  "MaxD = 4 MaxGen = 1 MaxN = 1 Windows = {1} MaxId = 3", "MaxD = 5 MaxGen = 2 MaxN = 1 Windows = {1} MaxId = 3"),
 }
 # property -> (scenarios, formulas checked in U1)
 U1 = {
@@ -31,6 +32,7 @@ U1 = {
     "C16": (["handshake"], ["PROPERTY Act_C14_pkt", "PROPERTY Act_C20"]),
     "C17": (["publisher", "subscriber"], ["INVARIANT Inv_C17"]),
     "C18": (["handshake", "publisher"], ["PROPERTY Act_C18"]),
+    "C19": (["twoaddr"], ["PROPERTY Act_C19", "INVARIANT Inv_C17"]),
     "C20": (["handshake"], ["PROPERTY Act_C20"]),
 }
 WALKS = {"quick": 240, "thorough": 4000}
@@ -61,7 +63,7 @@ def mc_u1(pid, tier):
         prof, q, t = SCN[scn]
         w = workdir("mc-%s-%s" % (pid, scn))
         cfgname = "MC_%s_%s.cfg" % (pid, scn)
-        cfg = "CONSTANTS\n  Addr = {\"A\"}\n  Profile = \"%s\"\n  Bugs = {}\n  Scn = \"%s\"\n  %s\nSPECIFICATION Spec\nCONSTRAINT Bound\nVIEW View\nCHECK_DEADLOCK FALSE\n%s\n" % (
+        cfg = "CONSTANTS\n  Addr = " + ('{"A", "B"}' if scn == "twoaddr" else '{"A"}') + "\n  Profile = \"%s\"\n  Bugs = {}\n  Scn = \"%s\"\n  %s\nSPECIFICATION Spec\nCONSTRAINT Bound\nVIEW View\nCHECK_DEADLOCK FALSE\n%s\n" % (
             prof, scn, q if tier == "quick" else t, "\n".join(formulas))
         with open(os.path.join(MC, cfgname), "w") as f:
             f.write(cfg)
@@ -243,7 +245,11 @@ def main(pid, tier, seed, replay=None):
     states, trans, runs = mc
 
     w = workdir("walk-" + pid)
-    if pid == "C03":
+    if pid == "C19":
+        run_py([os.path.join(VERIF, "harness", "pair_driver.py"), w, tier, str(seed)])
+        trace, index = os.path.join(w, "all.ndjson"), os.path.join(w, "all.idx.json")
+        idx = json.load(open(index)); src = [["pairs", "mixed", k + 1] for k in range(len(idx))]
+    elif pid == "C03":
         run_py([os.path.join(VERIF, "harness", "chunk_driver.py"), w, tier, str(seed)])
         trace, index = os.path.join(w, "all.ndjson"), os.path.join(w, "all.idx.json")
         idx = json.load(open(index)); src = [["chunk", "both", k + 1] for k in range(len(idx))]
@@ -253,7 +259,7 @@ def main(pid, tier, seed, replay=None):
     acc, rej, rmon = run_mon(pid, trace, index, "mon-" + pid)
     if len(acc) + len(rej) != len(idx):
         raise Machinery("TraceMon judged %d+%d of %d traces" % (len(acc), len(rej), len(idx)))
-    conf_ok, div = (0, []) if pid == "C03" else run_conf(w, ("both",) if tier == "quick" else ("pub", "sub", "both"), "conf-" + pid)
+    conf_ok, div = (0, []) if pid in ("C03", "C19") else run_conf(w, ("both",) if tier == "quick" else ("pub", "sub", "both"), "conf-" + pid)
     for d in div[:5]:
         print("NOTE divergence from MqttClient: profile=%s trace=%s line=%s stimulus=%s (%s)" % d)
 
